@@ -175,6 +175,9 @@ def write_evidence(ctx: Ctx, prop: str, tier: str, wall: float, violations: int,
                 "to evaluate; distinct = distinct (rule id, function, instance) triples",
         "samples": samples,
         "exhaustive": bool(ctx.exhaustive),
+        "exhaustive_scope": ("the finite abstract domains named in the explanation (weak orderings / threshold cells) are enumerated "
+                             "completely; structural rules enumerate every matching construct of the current source; the behavioural "
+                             "statement itself is not explored") if ctx.exhaustive else "every matching construct of the current source",
         "trusted_base": trusted_base,
         "checker_cmd": f"./check {prop} --tier {tier}",
         "functions_analysed": sorted(ctx.analysed_funcs),
